@@ -241,7 +241,7 @@ def rand_expr(rng, nets, depth, consts=True, root=True):
 
 
 def rand_netlist(rng, n_in=3, n_items=4, depth=2, names=None, bb=0, exprs_in_gates=False, restricted=False,
-                 unconnected=0.0, omitted=0.0, repeated_operands=False):
+                 unconnected=0.0, omitted=0.0, repeated_operands=False, const_pins=0.0):
     """A random acyclic netlist of the subset.  restricted=True gives the C14 subset (one instance per statement,
     no expressions, assigns of a net or constant only, every output driven)."""
     pool = list(names) if names else None
@@ -306,6 +306,8 @@ def rand_netlist(rng, n_in=3, n_items=4, depth=2, names=None, bb=0, exprs_in_gat
                 conns[p] = None
                 continue
             conns[p] = rng.choice(avail)
+            if const_pins and rng.random() < const_pins:
+                conns[p] = rng.choice(["1'b0", "1'b1"])
         if not conns:
             conns[bbs[bbname][0][0]] = rng.choice(avail)
         items.append(["bb", bbname, inst, conns])
